@@ -9,7 +9,7 @@ from .. import progs, features
 
 ID = "C01"
 LEAN_MODULES = ["PycModel.Properties.C01"]
-NAMESPACES = ["PycModel.C01", "PycModel.Tables", "PycModel.C09", "PycModel.FullExpr", "PycModel.StmtSkel", "PycModel.DeclParse", "PycModel.BuildDecl", "PycModel.TransUnit", "PycModel.Params"]
+NAMESPACES = ["PycModel.C01", "PycModel.Tables", "PycModel.C09", "PycModel.FullExpr", "PycModel.TypeName", "PycModel.StmtSkel", "PycModel.DeclParse", "PycModel.BuildDecl", "PycModel.TransUnit", "PycModel.Params"]
 REQUIRED_THEOREMS = ["PycModel.C01.wellformed_translation_units_are_accepted", "PycModel.TransUnit.parse_translation_unit", "PycModel.TransUnit.tu_loop", "PycModel.TransUnit.funcDef_ok", "PycModel.TransUnit.funcDefP_ok", "PycModel.Params.fdeclarator_ok", "PycModel.Params.functionDeclP_ok", "PycModel.Params.param_ok", "PycModel.Params.params_loop", "PycModel.Params.registerParams_ok", "PycModel.TransUnit.extDcl_ok", "PycModel.TransUnit.compound_ok", "PycModel.StmtSkel.slok_consD", "PycModel.StmtSkel.sok_forD", "PycModel.StmtSkel.all_sl", "PycModel.DeclParse.parse_declaration", "PycModel.C09.impl_keywords", "PycModel.C09.impl_punctuators", "PycModel.Tables.model_decl_start",
                      "PycModel.Tables.model_starts_expression", "PycModel.Tables.model_starts_statement",
                      "PycModel.C01.wellformed_expressions_are_accepted", "PycModel.C01.wellformed_statements_are_accepted"]
